@@ -129,12 +129,16 @@ type entryModel struct {
 	// anything stale); the model then simply follows the refetch. Counted in PrematureRefetches.
 	LenientFresh       bool
 	PrematureRefetches int
-	State              int
-	Ver                int64 // fetch id of the stored version
-	Created            int64
-	T                  int64
-	Until              int64 // hit-for-pass until (inclusive)
-	HFP                int64 // configured hit-for-pass seconds
+	// TolerateStale: an expired entry that is still served (as the old version) is not a refutation for
+	// the property using the model (staleness is C04's concern); the model keeps the old entry. Counted.
+	TolerateStale bool
+	StaleServes   int
+	State         int
+	Ver           int64 // fetch id of the stored version
+	Created       int64
+	T             int64
+	Until         int64 // hit-for-pass until (inclusive)
+	HFP           int64 // configured hit-for-pass seconds
 }
 
 func (m *entryModel) normalise(now int64) {
@@ -176,7 +180,22 @@ func (m *entryModel) afterFetch(ver int64, a ans, now int64) {
 // burstCheck judges a burst of requests on one key issued while the clock stood at now and the
 // system was quiescent before and after. Returns a description of the first refutation or "".
 func (m *entryModel) burstCheck(now int64, results []*hx.Result, rawFetches []*hx.Fetch, answerOf func(*hx.Fetch) ans, checkAge bool) (kind, text string) {
+	before := *m
 	m.normalise(now)
+	if m.TolerateStale && before.State == stHit && m.State == stNone && len(rawFetches) == 0 {
+		all := len(results) > 0
+		for _, res := range results {
+			if res.Err != nil || res.Label != "hit" || res.FetchID != before.Ver {
+				all = false
+			}
+		}
+		if all {
+			stale := m.StaleServes + 1
+			*m = before
+			m.StaleServes = stale
+			return "", ""
+		}
+	}
 	// one logical upstream contact per client request id (a transport-level retry of the same
 	// request is not a second contact); the earliest physical contact represents it
 	var fetches []*hx.Fetch
